@@ -212,7 +212,7 @@ CHECKS["C03"] = dict(
                   "<= 4 (thorough) over a 4-letter alphabet hash pairwise differently; (d) every single-character change of the salt (3 "
                   "replacements) and a cost step, for 2 phrases. Oracle: crypt(P',H) != H; for (d) different canonical setting => different hash part. "
                   "quick thins positions/lengths for sha256/512crypt, sunmd5, bcrypt to the boundary set plus every 8th; "
-                  "distinct_nontrivial = distinct results of perturbed phrases + small-scope phrases; (e) a 0x80 / 0xFF byte at every position with every other position perturbed; (f) every salt length of the accepted range x positions plus a cost step at each length; (g) every value 1..200 of yescrypt r, p, t pairwise"),
+                  "distinct_nontrivial = distinct results of perturbed phrases + small-scope phrases; (e) a 0x80 / 0xFF byte at every position with every other position perturbed; (f) every salt length of the accepted range and beyond (sha-crypt to 40, md5crypt to 24) x positions plus a cost step at each length; a character inside the documented significant salt length (md5crypt 8, sha-crypt 16, otherwise the whole salt) must change the hash part even when the echoed setting drops it; (g) every value 1..200 of yescrypt r, p, t pairwise"),
     assumptions=["8th-bit perturbations are not applied to DES-based methods, $2x$ and $2a$ (documented exemptions); their phrases are 7-bit",
                  "equivalences inherent to the specified algorithms (HMAC key vs SHA1(key) for sha1crypt) are outside the quantifier"],
     nonvacuous=lambda s, t: None if s.get("perturbations", 0) > 20000 and s.get("salt_changes", 0) > 400 else "too few perturbations",
@@ -313,7 +313,7 @@ CHECKS["C14"] = dict(
     jobs=lambda tier: [dict(name="c14", variant="o2", sources=["e_c14.c"] + RT, flags=["-DVH_MALLOC_SEAM"]),
                        # TLA+ model explored by TLC; every edge of its state graph replayed against the real crypt_ra
                        dict(name="c14tla", variant="o2", script=_c14tla.run)],
-    coverage=_mc_cov("explicit-state BFS on the real crypt_ra/crypt_gensalt_ra under the allocator seam: 23 start states (six of them with heap room behind the block, so that realloc grows it in place over old contents) of (*data,*size) "
+    coverage=_mc_cov("explicit-state BFS on the real crypt_ra/crypt_gensalt_ra under the allocator seam: 23 start states (six of them with heap room behind the block, so that realloc grows it in place over old contents); plus crypt_gensalt_ra over 19 prefix classes x 9 counts x rbytes NULL/given x 18 nrbytes values (INT_MIN..512) x every allocator fault position against the ownership rule (NULL = nothing allocated, string = exactly one live block) of (*data,*size) "
                      "(NULL with size 0/stale/negative; exact, larger; 1-, 100-, sizeof-1-byte blocks with true/zero/negative recorded size) x "
                      "alphabet of 13 operations (3 succeeding hashes, bad character, unknown prefix, 600-byte phrase, NULL setting, caller "
                      "free+reset, gensalt_ra ok/fail, crypt_ra with its first and with its second allocator request failing, gensalt_ra with each of "
@@ -413,7 +413,7 @@ CHECKS["C08"] = dict(
         rule="stateless schedule exploration of real pthreads over the real library under a cooperative scheduler: alphabet of 42 re-entrant "
              "operations (crypt_rn for 16 methods, crypt_r, crypt_ra, crypt_gensalt_rn for 14 prefixes + count + NULL prefix + rbytes==NULL, "
              "crypt_gensalt_ra, crypt_checksalt, crypt_preferred_method); configurations: every ordered pair as 2 threads x 1 operation, 2 threads "
-             "x 2 operations for same/neighbour pairs, 3 threads x 1 operation over a 6 (quick) / 12 (thorough) operation sub-alphabet; every "
+             "x 2 operations for same/neighbour pairs, 3 threads x 1 operation over a 6 (quick) / 12 (thorough) operation sub-alphabet; every the alphabet includes crypt_rn with 100..166-byte phrases (longer than every internal key block) for yescrypt, gost-yescrypt, scrypt, sha1crypt, bcrypt, sha512crypt and bigcrypt; every "
              "configuration explored to completion for preemption bounds 0, 1, 2; scheduling points = operation start/end + every mmap/munmap (a mapping belongs to the thread that made it and may only be unmapped, exactly, by that thread; thorough adds a 32 MiB operation) + every write to the "
              "library's writable image + every read of an image byte ever written + every access to another thread's object; per execution a "
              "byte-granular shadow of the image detects cross-thread conflicting accesses; results compared with solo results; 'states' counts "
@@ -468,7 +468,9 @@ CHECKS["C09"] = dict(
 
 CHECKS["C17"] = dict(
     level="exploration",
-    jobs=lambda tier: [dict(name="c17", variant="pic", sources=["e_c17.c"] + RT, libs=["-lgcrypt"], flags=["-DHAVE_CONFIG_H"])],
+    jobs=lambda tier: [dict(name="c17", variant="pic", sources=["e_c17.c"] + RT, libs=["-lgcrypt"], flags=["-DHAVE_CONFIG_H"]),
+                       # setkey_r/encrypt_r on distinct objects from 2..3 threads: C08's schedule explorer over a DES alphabet
+                       dict(name="c17sched", variant="hook", sources=["e_c08.c"] + RT, flags=["-fno-builtin", "-fno-tree-loop-distribute-patterns", "-DVH_C17_SCHED"], opt="-O1")],
     coverage=lambda stats, tier: dict(
         evaluations=int(stats.get("evaluations", 0)), distinct_nontrivial=int(stats.get("distinct_nontrivial", 0)),
         rule="DES core through des_set_key/des_set_salt/des_crypt_block against a bit-level FIPS 46-3 reference (itself cross-checked with libgcrypt): "
@@ -479,7 +481,7 @@ CHECKS["C17"] = dict(
              "{1,2,3,25,26,725} x 64 blocks and all 4096 12-bit salts; salt 0/count 1 vs libgcrypt DES; gen-des-tables output vs checked-in tables. "
              "API: setkey/encrypt/setkey_r/encrypt_r (GLIBC_2.2.5 symbols) on weight-1/63 vectors with junk bits {0,0xfe,0x80,0x30}: 0/1 outputs, "
              "equals DES, static == re-entrant, parity ignored, decrypt inverts; the re-entrant pair repeated on an object at each address offset 0..15 (moved by 64 bytes between the two calls at odd offsets); histories: BFS to closure over 11 operations against a "
-             "key-register model; distinct_nontrivial = distinct (key, salt, count, ciphertext) results",
+             "key-register model; job c17sched: C08's preemption-bounded schedule explorer (bounds 0,1,2; 2 and 3 threads) over the alphabet {setkey_r;encrypt_r encrypt, decrypt, crypt_rn(descrypt/bigcrypt/bsdicrypt), crypt_gensalt_rn(_)} on distinct objects: no access to shared library state, results equal the solo results; distinct_nontrivial = distinct (key, salt, count, ciphertext) results",
         states=int(stats.get("history_states", 0)), transitions=int(stats.get("history_transitions", 0)),
         sbox_pair_inputs_covered=int(stats.get("max_sbox_pair_inputs_covered", 0)), sbox_pair_inputs_total=16384),
     assumptions=["2^56 x 2^64 is not enumerated: completeness is over the table-entry space and the single-bit input space of a table-driven cipher",
